@@ -70,7 +70,7 @@ def run(R, tier):
             for r in rs:
                 conv = [e for e in r.trace if e.kind == "call" and e.name.endswith("TryFrom::try_from")]
                 v = ok_value(r)
-                if not (len(conv) == 1 and ("tok-%s-0" % name) in repr(conv[0].args[0])):
+                if not (len(conv) == 1 and CB.holds(conv[0].args[0], "tok-%s-0" % name)):
                     good = False
                 if v is not None and not (isinstance(v, EnumV) and v.name == "Value" and "try_from" in repr(snapshot(v.fields.get(0)))):
                     good = False
